@@ -12,7 +12,7 @@ EXPLANATION = ("Raw mesh data with symbolic declared edges (end points in [-1, V
                "(from_arrays) must give the same connectivity answers as list input.")
 BOUNDS = {
     "quick": "V=3..4 vertices; <=2 declared edges with arbitrary end points in [-1,V]; faces in {none, one triangle, two triangles, "
-             "one quad}; strips of 3 faces with every arity sequence over {3,4,5}; cells in {none, one tetrahedron}; sparse/dense edge attribute with symbolic int values; both completion "
+             "one quad}; strips of 3 faces with every arity sequence over {3,4,5}; cells in {none, one tetrahedron, two tetrahedra sharing a face}; sparse/dense edge attribute with symbolic int values; both completion "
              "switches; build once / re-wrap / copy; from_arrays for the two-triangle surface, the quad and 1-2 tetrahedra",
     "thorough": "adds strips of 4 faces with arities over {3..6}, a third declared edge, a pentagon, two tetrahedra sharing a face and one hexahedron (V=8)",
 }
@@ -228,10 +228,10 @@ def _snapshot(mesh):
 def rebuild_case(sx):
     """building again from an already built mesh changes nothing"""
     import mouette as M
-    kind = ["poly", "tri2", "quad", "tet"][sx.choice("kind", 4)]
-    V = 4
-    faces = {"poly": [], "tri2": FACE_OPTS["tri2"], "quad": FACE_OPTS["quad"], "tet": []}[kind]
-    cells = [(0, 1, 2, 3)] if kind == "tet" else []
+    kind = ["poly", "tri2", "quad", "tet", "tet2"][sx.choice("kind", 5)]
+    V = 5 if kind == "tet2" else 4
+    faces = {"poly": [], "tri2": FACE_OPTS["tri2"], "quad": FACE_OPTS["quad"], "tet": [], "tet2": []}[kind]
+    cells = {"tet": [(0, 1, 2, 3)], "tet2": [(0, 1, 2, 3), (1, 2, 4, 3)]}.get(kind, [])
     declared = []
     if sx.flag("declare_edge"):
         a, b = sx.int("ea", 0, V - 1), sx.int("eb", 0, V - 1)
@@ -239,7 +239,7 @@ def rebuild_case(sx):
         declared = [(sx.concrete(a), sx.concrete(b))]
     if kind == "poly":
         sx.assume(len(declared) == 1)
-    mesh = meshgen.build(meshgen.generic_coords(V), declared, faces, cells)
+    mesh = meshgen.build(meshgen.embed_tets(cells, V) if cells else meshgen.generic_coords(V), declared, faces, cells)
     before = _snapshot(mesh)
     mode = ["rewrap", "rewrap-twice", "copy", "copy-attributes"][sx.choice("mode", 4)]
     tag = " [%s, %s]" % (kind, mode)
@@ -334,7 +334,7 @@ def obligations(tier):
               note="<=2 declared edges with end points in [-1,3], no face / one triangle, edge attribute sparse or dense"),
            Ob("edges-V4", edges_case(4, 1 if q else 2, ["tri2", "quad"]), covers=COVERS, split=6,
               note="declared edges with end points in [-1,4], two triangles / one quad"),
-           Ob("cells", cells_case(["tet", "tet-rev"] if q else ["tet", "tet-rev", "tet2", "hex"]), covers=COVERS, split=4,
+           Ob("cells", cells_case(["tet", "tet-rev", "tet2"] if q else ["tet", "tet-rev", "tet2", "hex"]), covers=COVERS, split=4,
               note="faces completed from cells, corner / cell-face records"),
            Ob("rebuild", rebuild_case, covers=COVERS, split=4, note="re-wrap / copy of a built mesh"),
            Ob("arrays", arrays_case, covers=COVERS, split=3, note="numpy-row input vs list input")]
